@@ -1,6 +1,6 @@
 (* C13 property theorems: statements only, each closed by [exact]. *)
 From Boltons Require Import Lib.Prelude Spec.C13_Spec Model.C13_Model
-     Model.C13_Text Gen.C13_Gen
+     Model.C13_Text Gen.C13_Gen Proofs.C13_Text
      Check.C13_Check Proofs.C13_Bind Proofs.C13_Shape Proofs.C13_Sig Proofs.C13_Main Proofs.C13_Holds Proofs.C13_Tie.
 
 (* wraps(f)(wrapper): the same signature (parameters, kinds, defaults on the same
@@ -137,6 +137,34 @@ Print Assumptions C13_model_agrees_with_itself.
 Theorem C13_signature_wellformed : forall f, wf_func f -> wf_params (sg_params (func_sig f)) = true.
 Proof. exact func_sig_wf. Qed.
 Print Assumptions C13_signature_wellformed.
+
+(* ---- the generated source text, for every shape and every rendering of names as identifiers ------- *)
+(* get_invocation_str: after the regular-expression substitution and [1:-1] the
+   text reads back as exactly the structural invocation the call theorems use *)
+Theorem C13_invocation_text : forall render : name -> text,
+  (forall n, ident (render n) = true) ->
+  forall b, read_arglist (inv_text render b) = Some (inv_items render (get_invocation b)).
+Proof. exact inv_text_reads. Qed.
+Print Assumptions C13_invocation_text.
+
+(* get_sig_str(with_annotations=False): the def line's parameter list reads back as
+   args, *varargs or the bare star, keyword-only names, **varkw *)
+Theorem C13_signature_text : forall render : name -> text,
+  (forall n, ident (render n) = true) ->
+  forall b, read_arglist (strip_ends (sig_text render b)) = Some (sig_items render b).
+Proof. exact sig_text_reads. Qed.
+Print Assumptions C13_signature_text.
+
+(* _KWONLY_MARKER removes the bare star spec and nothing else (never "*args, ", never "**kw") *)
+Theorem C13_marker_removes_only_bare_star : forall render : name -> text,
+  (forall n, ident (render n) = true) ->
+  forall b, sub_marker (inv_text_raw render b) =
+            LPAR :: join SEP (filter (fun s => negb (text_eqb s [STAR])) (inv_specs render b)) ++ [RPAR].
+Proof. exact sub_marker_inv_text. Qed.
+Print Assumptions C13_marker_removes_only_bare_star.
+
+Example C13_ex_render_ident : forall n, ident (gen_render n) = true.
+Proof. exact gen_render_ident. Qed.
 
 (* ---- obligations over data regenerated from /repo on every run (Gen/C13_Gen.v) ------------------ *)
 (* Model.C13_Text.scan is, extensionally on every string of length <= 5 over
